@@ -5,6 +5,11 @@ sys.path.insert(0, '/verif/lib')
 import props
 
 LEVEL = {
+ "C19": ("CApi.tla states the C interface as relations: a constructor returns NULL iff the file is unreadable, the alist does not parse, the name is not one of Factory!Names, the pattern is not empty-or-0/1-list, or (encoder) the systematic "
+         "encoder rejects the matrix; decode returns iterations / -1 and the leading bits of the Rust decoder's word on the depunctured LLRs; encode writes the punctured codeword. The real extern \"C\" symbols are bound by trace validation: they are "
+         "called from child processes with write-ahead records (an abort is attributed to its input), through files and strings, f64 and f32 entry points, output lengths 0..n, two interleaved handles, and every call is paired with the public Rust API on fresh objects; TLC evaluates the relations (name membership from the string itself).",
+         "TLC + Json/IOUtils; Rust-API references (their correctness is C01-C05, C10, C15, C02); encoder constructor only given matrices inside C02's domain.",
+         "TLA+ relational specification + trace validation of FFI calls made in child processes", "5 C19"),
  "C06": ("QcCode.tla holds the standard's constants (n, k, q = (n-k)/360, degree profiles for all 21 identifiers, typed from EN 302 307-1) and the construction law; TLC proves on scaled-down parameters that consecutive columns of a group are "
          "shifts by q, that the parity part is a staircase (hence invertible, linear-time encodable) and that the base-address difference criterion is equivalent to the absence of 4-cycles (Tanner!Girth). The real matrices are bound by "
          "trace validation, one event per code: TLC checks dimensions, the quasi-cyclic law column by column (all columns of the short codes; all of every code in thorough), the degree profile, the dual diagonal, the 4-cycle criterion on the "
